@@ -639,7 +639,9 @@ func drivePrimSweep(c *DriverCtx) error {
 				a := f.args(n)
 				a["pw"], a["le"] = cfg.pw, cfg.le
 				b := fmt.Sprintf("b%d", n%50)
-				ops = append(ops, Op{Op: "reset", B: b}, Op{Op: "prim", B: b, Fn: f.wfn, Args: a, Tag: "sweep"}, Op{Op: "write", B: b, Bytes: []int{0xEE}},
+				ops = append(ops, Op{Op: "reset", B: b}, Op{Op: "prim", B: b, Fn: f.wfn, Args: a, Tag: "sweep"},
+					Op{Op: "cut", B: b + "c", From: b, K: -1 - n%4, Tag: "all-but-the-last-bytes"}, Op{Op: "prim", B: b + "c", Fn: f.rfn, Args: a, Tag: "truncated"},
+					Op{Op: "write", B: b, Bytes: []int{0xEE}},
 					Op{Op: "prim", B: b, Fn: f.rfn, Args: a, Tag: "read-back"}, Op{Op: "peek", B: b})
 				if len(ops) >= 250 {
 					if err := c.Run(ops); err != nil {
